@@ -160,4 +160,5 @@ def facts(fam, t, out, ctx):
         "union_copy_shortcut": common.union_copy_fact(fam, t),
         "encoded_only_basic": None if out is None else only_basic(out),
         "natives": sorted(ctx.natives),
+        "field_engine_over_format_native": common.engine_over_native(fam, t, ctx.natives),
     }
